@@ -111,6 +111,10 @@ var c18Events = []c18Ev{
 	{Kind: "size", Size: 0},                                 // 7
 	{Kind: "size", Size: 64},                                // 8
 	{Kind: "size", Size: 4096},                              // 9
+	// exact-fill sizes (RFC 7541 4.4 evicts only while size > max): (a,1) is 34 bytes, so 34 is filled
+	// exactly by one entry and 68 exactly by (a,1)+(a,2); (a,1)+(d,"") = 67 leaves one byte free
+	{Kind: "size", Size: 68}, // 10
+	{Kind: "size", Size: 34}, // 11
 }
 
 func (e c18Ev) String() string {
@@ -587,7 +591,7 @@ func TestVerifC18HpackBFS(t *testing.T) {
 		})
 	p.Note("max_depth_with_new_state", maxDepth)
 	p.Note("events", len(c18Events))
-	p.End(complete, fmt.Sprintf("all event histories of depth <= %d over %d events (7 fields: static match, repeated name, 40-byte huffman and 40-byte raw value, sensitive, empty value; table size 0/64/4096), 3 block modes (block per field / block per run / byte-wise feed), directions mosn->xnet, xnet->mosn, mosn->mosn", depth, len(c18Events)),
+	p.End(complete, fmt.Sprintf("all event histories of depth <= %d over %d events (7 fields: static match, repeated name, 40-byte huffman and 40-byte raw value, sensitive, empty value; table size 0/34/64/68/4096 - 34 and 68 are filled exactly by one / two 34-byte entries), 3 block modes (block per field / block per run / byte-wise feed), directions mosn->xnet, xnet->mosn, mosn->mosn", depth, len(c18Events)),
 		"BFS with canonical-state de-duplication over the product of both encoders and four decoders; a transition replays the history on fresh objects plus one event; distinct = canonical product states; outcome = HPACK representations chosen by the two encoders; histories on which the reference pair itself fails (two consecutive size updates on a non-empty table) are enumerated, not compared")
 }
 
